@@ -206,6 +206,30 @@ def nesting():
     return out
 
 
+def duplicate_lines():
+    """a listing may define a line number twice (a merged or hand-edited file): whatever refers to such a number, the text is converted or
+    refused with a documented error"""
+    def run():
+        bad, n = [], 0
+        refs = ["GOTO 10", "GOSUB 10", "ON A GOTO 10,30", "ON A GOSUB 30,10", "IF A=1 THEN 10", "IF A=1 THEN 30 ELSE 10", "IF A=1 THEN B=1 ELSE IF A=2 THEN 10 ELSE 30", "ON ERR GOTO 10", "ON BRK GOTO 10",
+                "A=1", "FOR I=1 TO 2:NEXT", "RESTORE"]
+        layouts = ["10 A=1\n10 B=2\n20 %s\n30 END\n", "10 A=1\n20 %s\n10 B=2\n30 END\n", "20 %s\n10 A=1\n30 END\n10 B=2\n", "10 A=1\n10 B=2\n10 C=3\n20 %s\n30 END\n30 END\n", "0 A=1\n0 B=2\n10 C=1\n20 %s\n30 END\n"]
+        for ref in refs:
+            for lay in layouts:
+                src = lay % ref
+                for kw in (dict(add_standard_prefix=False), dict(filter_unused_linenum=True), dict(initialize_vars=True, output_dependencies=True, procname="p")):
+                    n += 1
+                    try:
+                        convert(src, **kw)
+                    except Exception as e:  # noqa
+                        kind, what = classify(e)
+                        if kind == "internal":
+                            bad.append("%r -> %s" % (src, what))
+        return [ob("duplicate-lines/every kind of reference to a line number that is defined twice", not bad, "only documented refusals", bad[:4] or "%d conversions" % n,
+                   bounded="12 referring statements x 5 layouts x 3 option sets")]
+    return guarded("duplicate-lines", run)
+
+
 def literals():
     """strings the literal terminals accept are accepted by the conversions applied to them"""
     def run():
@@ -470,4 +494,4 @@ def cli_content():
 
 
 def obligations():
-    return arity() + tables() + operators() + literals() + data_and_procnames() + loop_balance() + no_hang() + config_files() + cli_file_names() + cli_content() + nesting() + mutations()
+    return arity() + tables() + operators() + literals() + data_and_procnames() + loop_balance() + no_hang() + config_files() + cli_file_names() + cli_content() + duplicate_lines() + nesting() + mutations()
